@@ -31,6 +31,45 @@ TRUSTED = ["recording stub pool / queue wrapper in the L1 driver", "stub executo
 
 E2E_ENV = {"ARVADOS_API_HOST": "localhost:9"}
 
+# Add-only instrumentation of the CURRENT working-tree sources, regenerated on every run: a call of
+# verifC14Event (harness/overlay/lib/dispatchcloud/worker/zz_verif_c14_hook.go) becomes the first statement
+# of three functions whose callers hold the pool lock (not worker.shutdown: Pool.KillInstance calls it unlocked). A signature that is not found is simply not
+# instrumented; the e2e driver then reports the missing events and the oracle raises the alarm.
+INSTRUMENT = {
+    "lib/dispatchcloud/worker/worker.go": [
+        (r"func \(wkr \*worker\) startContainer\(ctr arvados\.Container\) \{", ' verifC14Event("startContainer", wkr.wp, wkr, ctr.UUID);'),
+        (r"func \(wkr \*worker\) updateRunning\(ctrUUIDs \[\]string\) \(changed bool\) \{", ' verifC14Event("updateRunning", wkr.wp, wkr, "");'),
+        (r"func \(wkr \*worker\) shutdown\(\) \{", ' verifC14Event("shutdown", wkr.wp, wkr, "");'),
+    ],
+    "lib/dispatchcloud/worker/pool.go": [
+        (r"func \(wp \*Pool\) updateWorker\(inst cloud\.Instance, it arvados\.InstanceType\) \(\*worker, bool\) \{", ' verifC14Event("updateWorker", wp, nil, "");'),
+    ],
+}
+
+
+def overlay_generated(repo, workdir):
+    import os
+    out = {}
+    gen = os.path.join(workdir, "gen")
+    os.makedirs(gen, exist_ok=True)
+    for rel, points in INSTRUMENT.items():
+        try:
+            src = open(os.path.join(repo, rel)).read()
+        except OSError:
+            continue
+        n = 0
+        for pat, ins in points:
+            m = re.search(pat, src)
+            if m:
+                src = src[:m.end()] + ins + src[m.end():]
+                n += 1
+        if n:
+            dst = os.path.join(gen, os.path.basename(rel))
+            open(dst, "w").write(src)
+            out[rel] = dst
+    return out
+
+
 DRIVERS = {
     "e2e": {"kind": "gotest", "pkg": "lib/dispatchcloud", "test": "TestVerifC14", "min_chunk": 1, "shards": 6,
             "isolate": True, "case_timeout": 120, "timeout": 1500, "env": E2E_ENV},
@@ -432,8 +471,14 @@ def compare(case, impl, model):
         # the model predicts the recovery part; what the passes after it do is judged by the oracle
         return impl.rsplit(";double=", 1)[0] == model
     if op == "e2e":
-        # no model prediction for a whole run: the oracle judges the observations
-        return model == "e2e-no-model" and impl.startswith(("e2e ", "e2e-crash "))
+        # no model prediction for a whole run: the oracle judges the observations; the sampled pool
+        # snapshots are evaluated by the Lean model's invariant check (`snp`, C14_snapshot_check_sound)
+        if model != "e2e-no-model" or not impl.startswith(("e2e ", "e2e-crash ")):
+            return False
+        m = re.search(r" snaps=(\S+)", impl)
+        if m and m.group(1) != "-":
+            return _model_snp(m.group(1)) == "ok"
+        return True
     if op in ("rq", "pl"):
         return impl in model.split("|")
     return impl == model
@@ -603,6 +648,17 @@ def _oracle_pl(f, impl):
     return None
 
 
+def _model_snp(snaps):
+    import os, subprocess
+    exe = os.path.join(os.path.dirname(os.path.dirname(os.path.dirname(os.path.abspath(__file__)))),
+                       "lean", ".lake", "build", "bin", "arvmodel_c14")
+    try:
+        p = subprocess.run([exe], input="snp " + snaps + "\n", stdout=subprocess.PIPE, text=True, timeout=60)
+        return p.stdout.strip()
+    except Exception as e:          # the model could not be run: that is a correspondence break
+        return "error " + str(e)
+
+
 def _parse_e2e(impl):
     head, _, obs = impl.partition(" obs=")
     kv = dict(x.split("=", 1) for x in head.split(" ")[1:] if "=" in x)
@@ -643,6 +699,13 @@ def _oracle_e2e(f, impl):
     restarts = int(kv.get("restarts", "0"))
     if kv.get("bugs", "-") != "-":
         return "stub cloud reported: " + kv["bugs"][:200]
+    if kv.get("invfail", "-") != "-":
+        return ("the pool's bookkeeping and the process tables violate the protocol invariant at a pool "
+                "linearization point: " + kv["invfail"][:300])
+    if "events" in kv and restarts >= 0:
+        ev = [int(x) for x in kv["events"].split("/")]
+        if int(kv.get("starts", 0)) > 0 and (ev[0] == 0 or ev[1] == 0):
+            return "no pool events observed although containers were started (instrumentation points not found)"
     if kv.get("untracked", "-") != "-":
         return ("live crunch-run process(es) on a probed instance are missing from the pool's Running(): "
                 + kv["untracked"][:200])
@@ -836,6 +899,10 @@ def describe(cases, impl):
             e["restarts"] += int(kv.get("restarts", 0))
             e["vms"] += int(kv.get("vms", 0))
             e["tracked_checks"] = e.get("tracked_checks", 0) + int(kv.get("trackchecks", 0))
+            if "events" in kv:
+                e["pool_events_checked"] = e.get("pool_events_checked", 0) + sum(int(x) for x in kv["events"].split("/"))
+                e["snapshots_rechecked_in_lean"] = e.get("snapshots_rechecked_in_lean", 0) + (
+                    0 if kv.get("snaps", "-") == "-" else kv["snaps"].count("|") + 1)
         elif f[0] == "sy" and r:
             for tag in ("qc", "qu", "pk", "qf"):
                 d["sy_actions"][tag] = d["sy_actions"].get(tag, 0) + len(re.findall(tag + r"\d", r))
